@@ -101,6 +101,11 @@ impl<P: CompilationProfile> IsographDatabase<P> {
         ensures final(self).ops() == old(self).ops().push(DbOp::RemoveFolder(relative_path@)), final(self).cwd() == old(self).cwd(), final(self).config() == old(self).config(), final(self).schema_id() == old(self).schema_id(),
     { unimplemented!() }
 }
+/// read_files::is_source_file: a .ts/.tsx/.js/.jsx file outside __isograph - what a batch
+/// compile reads (uninterpreted here; the predicate itself is string matching on the path)
+pub uninterp spec fn source_file(p: Path) -> bool;
+#[verifier::external_body]
+pub fn is_source_file(p: &Path) -> (r: bool) ensures r == source_file(*p) { unimplemented!() }
 /// read_files::read_file: (relative path, content) of one source file, or an error
 pub uninterp spec fn file_read(p: Path, cwd: CurrentWorkingDirectory) -> Result<(RelativePathToSourceFile, Seq<char>), LocationFreeDiagnostic>;
 #[verifier::external_body]
@@ -173,10 +178,14 @@ pub open spec fn inserted(ops: Seq<DbOp>, files: Seq<(RelativePathToSourceFile, 
 //@contract
     ensures
         final(db).cwd() == old(db).cwd(),
-        match file_read(*path, old(db).cwd()) {
-            Ok(f) => r is Ok && final(db).ops() == old(db).ops().push(DbOp::InsertFile(f.0, f.1)),
-            Err(e) => r is Err && final(db).ops() == old(db).ops(),
-        }, //@O C20.O-2_changed_file_is_reread_and_retracked
+        // a file a batch compile would read is read again and (re)tracked; any other file is
+        // ignored, whatever it contains (F-C20e)
+        if source_file(*path) {
+            match file_read(*path, old(db).cwd()) {
+                Ok(f) => r is Ok && final(db).ops() == old(db).ops().push(DbOp::InsertFile(f.0, f.1)),
+                Err(e) => r is Err && final(db).ops() == old(db).ops(),
+            }
+        } else { r is Ok && final(db).ops() == old(db).ops() }, //@O C20.O-2_changed_file_is_reread_and_retracked
 //@end
 
 //@fn rel=crates/isograph_compiler/src/source_files.rs name=handle_update_source_folder vis=pub ret=r serves=C20
@@ -210,14 +219,17 @@ pub open spec fn inserted(ops: Seq<DbOp>, files: Seq<(RelativePathToSourceFile, 
     ensures
         final(db).cwd() == old(db).cwd(),
         match *event_kind {
-            SourceEventKind::CreateOrModify(path) => match file_read(path, old(db).cwd()) {
-                Ok(f) => r is Ok && final(db).ops() == old(db).ops().push(DbOp::InsertFile(f.0, f.1)),
-                Err(e) => r is Err && final(db).ops() == old(db).ops(),
-            },
+            SourceEventKind::CreateOrModify(path) => if source_file(path) {
+                match file_read(path, old(db).cwd()) {
+                    Ok(f) => r is Ok && final(db).ops() == old(db).ops().push(DbOp::InsertFile(f.0, f.1)),
+                    Err(e) => r is Err && final(db).ops() == old(db).ops(),
+                }
+            } else { r is Ok && final(db).ops() == old(db).ops() },
             // a renamed file: the old name is dropped; if it was tracked the new file is read
+            // (if it is a source file)
             SourceEventKind::Rename((source_path, target_path)) => {
                 let o1 = old(db).ops().push(DbOp::RemoveFile(rel_file(old(db).cwd(), source_path)));
-                if old(db).tracked(rel_file(old(db).cwd(), source_path)) {
+                if old(db).tracked(rel_file(old(db).cwd(), source_path)) && source_file(target_path) {
                     match file_read(target_path, old(db).cwd()) {
                         Ok(f) => r is Ok && final(db).ops() == o1.push(DbOp::InsertFile(f.0, f.1)),
                         Err(e) => r is Err && final(db).ops() == o1,
